@@ -14,10 +14,13 @@ OTHER = ['!', '!foo', '!<tag:example.com,2000:x>', '!<x>', '!!python/object', '!
 KINDS = [("scalar-empty", "''"), ('scalar-x', 'x'), ('seq-empty', '[]'), ('seq-x', '[x]'), ('map-empty', '{}'), ('map-ab', '{a: b}'),
          ('long', '{args: [x], kwds: {a: b}, state: {a: b}, listitems: [x], dictitems: {a: b}}'), ('seq-args', '[1, 2]'),
          ('scalar-num', '1'), ('state-dunder', '{state: {__class__: x, append: y}, args: []}'),
-         ('value-key-scalar', '{=: x}'), ('value-key-seq', '{=: [a, b]}'), ('value-key-map', '{=: {a: b}}')]
+         ('value-key-scalar', '{=: x}'), ('value-key-seq', '{=: [a, b]}'), ('value-key-map', '{=: {a: b}}'),
+         # a scalar whose TEXT is that of the special keys (the tag, not the text, decides what a node is)
+         ('scalar-value-text', '='), ('scalar-merge-text', '<<')]
 
 CONTEXTS = ['root', 'seq-item', 'map-value', 'map-key', 'set-member', 'omap-value', 'pairs-value', 'aliased', 'merge', 'merge-list', 'nested',
-            'second-doc', 'omap-entry', 'pairs-entry', 'deep', 'key-and-value', 'merge-overridden', 'mergelist-overridden', 'dup-key-overridden']
+            'second-doc', 'omap-entry', 'pairs-entry', 'deep', 'key-and-value', 'merge-overridden', 'mergelist-overridden', 'dup-key-overridden',
+            'key-of-mapping-value', 'key-of-maplist-value']
 
 
 # the tagged node below a collection that itself carries an explicit core tag - of the right kind or not (a constructor
@@ -73,6 +76,10 @@ def in_context(ctx, node):
         return '{<<: [{a: 0}, {a: %s}], c: 3}\n' % node
     if ctx == 'dup-key-overridden':    # the first of two equal keys is overwritten: its value is still constructed
         return '{a: %s, a: 2}\n' % node
+    if ctx == 'key-of-mapping-value':  # the tagged node is a key whose value is a mapping (where a merge key would stand)
+        return '{? %s : {a: 1}, b: 2}\n' % node
+    if ctx == 'key-of-maplist-value':
+        return '? %s\n: [{a: 1}, {c: 3}]\nb: 2\n' % node
     if ctx == 'nested-py':
         return '!!python/tuple [!!python/list [%s], !!python/dict {k: %s}]\n' % (node, node)
     raise ValueError(ctx)
